@@ -32,6 +32,8 @@ type Buffer struct {
 
 	uint8ArrayCtorObj *goja.Object
 	uint8ArrayCtor    goja.Constructor
+
+	converting bool // an object that is not a byte array is being converted to bytes, see bytes()
 }
 
 var (
@@ -57,6 +59,23 @@ func Bytes(r *goja.Runtime, v goja.Value) []byte {
 		return []byte(v.String())
 	}
 	return b
+}
+
+// bytes is Bytes for the receiver and the arguments of a call from JavaScript. Converting an object that is not a
+// byte array needs its string form (the error message of the failed export formats it, too): that is user code,
+// and it may be bound to the very method that is asking (o.toString = Buffer.prototype.equals). Left alone, such a
+// chain overflows the Go stack, which is fatal to the host process; and since a failed export swallows what its
+// formatting throws and the string form is then asked for a second time, merely bounding the depth would leave a
+// walk that doubles at every level. So while one such conversion is in progress, a nested one is refused.
+func (b *Buffer) bytes(v goja.Value) []byte {
+	if o, ok := v.(*goja.Object); ok && o.ExportType() != reflectTypeBytes {
+		if b.converting {
+			panic(errors.NewTypeError(b.r, errors.ErrCodeInvalidArgType, "The value must be an instance of Buffer or Uint8Array."))
+		}
+		b.converting = true
+		defer func() { b.converting = false }()
+	}
+	return Bytes(b.r, v)
 }
 
 func mod(r *goja.Runtime) *goja.Object {
@@ -427,7 +446,7 @@ func (b *Buffer) proto_toString(call goja.FunctionCall) goja.Value {
 		// Converting an arbitrary receiver to bytes may need its string form, i.e. this very method.
 		panic(errors.NewTypeError(b.r, errors.ErrCodeInvalidThis, "Value of \"this\" must be of type Buffer or Uint8Array"))
 	}
-	bb := Bytes(b.r, call.This)
+	bb := b.bytes(call.This)
 	codec := b.getStringCodec(call.Argument(0))
 	start := goutil.CoercedIntegerArgument(call, 1, 0, 0)
 
@@ -453,10 +472,10 @@ func (b *Buffer) proto_toString(call goja.FunctionCall) goja.Value {
 }
 
 func (b *Buffer) proto_equals(call goja.FunctionCall) goja.Value {
-	bb := Bytes(b.r, call.This)
+	bb := b.bytes(call.This)
 	other := call.Argument(0)
 	if b.r.InstanceOf(other, b.uint8ArrayCtorObj) {
-		otherBytes := Bytes(b.r, other)
+		otherBytes := b.bytes(other)
 		return b.r.ToValue(bytes.Equal(bb, otherBytes))
 	}
 	panic(errors.NewTypeError(b.r, errors.ErrCodeInvalidArgType, "The \"otherBuffer\" argument must be an instance of Buffer or Uint8Array."))
@@ -464,7 +483,7 @@ func (b *Buffer) proto_equals(call goja.FunctionCall) goja.Value {
 
 // readBigInt64BE reads a big-endian 64-bit signed integer from the buffer
 func (b *Buffer) readBigInt64BE(call goja.FunctionCall) goja.Value {
-	bb := Bytes(b.r, call.This)
+	bb := b.bytes(call.This)
 	offset := b.getOffsetArgument(call, 0, bb, 8)
 	value := int64(binary.BigEndian.Uint64(bb[offset : offset+8]))
 
@@ -473,7 +492,7 @@ func (b *Buffer) readBigInt64BE(call goja.FunctionCall) goja.Value {
 
 // readBigInt64LE reads a little-endian 64-bit signed integer from the buffer
 func (b *Buffer) readBigInt64LE(call goja.FunctionCall) goja.Value {
-	bb := Bytes(b.r, call.This)
+	bb := b.bytes(call.This)
 	offset := b.getOffsetArgument(call, 0, bb, 8)
 	value := int64(binary.LittleEndian.Uint64(bb[offset : offset+8]))
 
@@ -482,7 +501,7 @@ func (b *Buffer) readBigInt64LE(call goja.FunctionCall) goja.Value {
 
 // readBigUInt64BE reads a big-endian 64-bit unsigned integer from the buffer
 func (b *Buffer) readBigUInt64BE(call goja.FunctionCall) goja.Value {
-	bb := Bytes(b.r, call.This)
+	bb := b.bytes(call.This)
 	offset := b.getOffsetArgument(call, 0, bb, 8)
 	value := binary.BigEndian.Uint64(bb[offset : offset+8])
 
@@ -491,7 +510,7 @@ func (b *Buffer) readBigUInt64BE(call goja.FunctionCall) goja.Value {
 
 // readBigUInt64LE reads a little-endian 64-bit unsigned integer from the buffer
 func (b *Buffer) readBigUInt64LE(call goja.FunctionCall) goja.Value {
-	bb := Bytes(b.r, call.This)
+	bb := b.bytes(call.This)
 	offset := b.getOffsetArgument(call, 0, bb, 8)
 	value := binary.LittleEndian.Uint64(bb[offset : offset+8])
 
@@ -500,7 +519,7 @@ func (b *Buffer) readBigUInt64LE(call goja.FunctionCall) goja.Value {
 
 // readDoubleBE reads a big-endian 64-bit floating-point number from the buffer
 func (b *Buffer) readDoubleBE(call goja.FunctionCall) goja.Value {
-	bb := Bytes(b.r, call.This)
+	bb := b.bytes(call.This)
 	offset := b.getOffsetArgument(call, 0, bb, 8)
 	value := binary.BigEndian.Uint64(bb[offset : offset+8])
 
@@ -509,7 +528,7 @@ func (b *Buffer) readDoubleBE(call goja.FunctionCall) goja.Value {
 
 // readDoubleLE reads a little-endian 64-bit floating-point number from the buffer
 func (b *Buffer) readDoubleLE(call goja.FunctionCall) goja.Value {
-	bb := Bytes(b.r, call.This)
+	bb := b.bytes(call.This)
 	offset := b.getOffsetArgument(call, 0, bb, 8)
 	value := binary.LittleEndian.Uint64(bb[offset : offset+8])
 
@@ -518,7 +537,7 @@ func (b *Buffer) readDoubleLE(call goja.FunctionCall) goja.Value {
 
 // readFloatBE reads a big-endian 32-bit floating-point number from the buffer
 func (b *Buffer) readFloatBE(call goja.FunctionCall) goja.Value {
-	bb := Bytes(b.r, call.This)
+	bb := b.bytes(call.This)
 	offset := b.getOffsetArgument(call, 0, bb, 4)
 	value := binary.BigEndian.Uint32(bb[offset : offset+4])
 
@@ -527,7 +546,7 @@ func (b *Buffer) readFloatBE(call goja.FunctionCall) goja.Value {
 
 // readFloatLE reads a little-endian 32-bit floating-point number from the buffer
 func (b *Buffer) readFloatLE(call goja.FunctionCall) goja.Value {
-	bb := Bytes(b.r, call.This)
+	bb := b.bytes(call.This)
 	offset := b.getOffsetArgument(call, 0, bb, 4)
 	value := binary.LittleEndian.Uint32(bb[offset : offset+4])
 
@@ -536,7 +555,7 @@ func (b *Buffer) readFloatLE(call goja.FunctionCall) goja.Value {
 
 // readInt8 reads an 8-bit signed integer from the buffer
 func (b *Buffer) readInt8(call goja.FunctionCall) goja.Value {
-	bb := Bytes(b.r, call.This)
+	bb := b.bytes(call.This)
 	offset := b.getOffsetArgument(call, 0, bb, 1)
 	value := int8(bb[offset])
 
@@ -545,7 +564,7 @@ func (b *Buffer) readInt8(call goja.FunctionCall) goja.Value {
 
 // readInt16BE reads a big-endian 16-bit signed integer from the buffer
 func (b *Buffer) readInt16BE(call goja.FunctionCall) goja.Value {
-	bb := Bytes(b.r, call.This)
+	bb := b.bytes(call.This)
 	offset := b.getOffsetArgument(call, 0, bb, 2)
 	value := int16(binary.BigEndian.Uint16(bb[offset : offset+2]))
 
@@ -554,7 +573,7 @@ func (b *Buffer) readInt16BE(call goja.FunctionCall) goja.Value {
 
 // readInt16LE reads a little-endian 16-bit signed integer from the buffer
 func (b *Buffer) readInt16LE(call goja.FunctionCall) goja.Value {
-	bb := Bytes(b.r, call.This)
+	bb := b.bytes(call.This)
 	offset := b.getOffsetArgument(call, 0, bb, 2)
 	value := int16(binary.LittleEndian.Uint16(bb[offset : offset+2]))
 
@@ -563,7 +582,7 @@ func (b *Buffer) readInt16LE(call goja.FunctionCall) goja.Value {
 
 // readInt32BE reads a big-endian 32-bit signed integer from the buffer
 func (b *Buffer) readInt32BE(call goja.FunctionCall) goja.Value {
-	bb := Bytes(b.r, call.This)
+	bb := b.bytes(call.This)
 	offset := b.getOffsetArgument(call, 0, bb, 4)
 	value := int32(binary.BigEndian.Uint32(bb[offset : offset+4]))
 
@@ -572,7 +591,7 @@ func (b *Buffer) readInt32BE(call goja.FunctionCall) goja.Value {
 
 // readInt32LE reads a little-endian 32-bit signed integer from the buffer
 func (b *Buffer) readInt32LE(call goja.FunctionCall) goja.Value {
-	bb := Bytes(b.r, call.This)
+	bb := b.bytes(call.This)
 	offset := b.getOffsetArgument(call, 0, bb, 4)
 	value := int32(binary.LittleEndian.Uint32(bb[offset : offset+4]))
 
@@ -581,7 +600,7 @@ func (b *Buffer) readInt32LE(call goja.FunctionCall) goja.Value {
 
 // readIntBE reads a big-endian signed integer of variable byte length
 func (b *Buffer) readIntBE(call goja.FunctionCall) goja.Value {
-	bb := Bytes(b.r, call.This)
+	bb := b.bytes(call.This)
 	offset, byteLength := b.getVariableLengthReadArguments(call, bb)
 
 	var value int64
@@ -596,7 +615,7 @@ func (b *Buffer) readIntBE(call goja.FunctionCall) goja.Value {
 
 // readIntLE reads a little-endian signed integer of variable byte length
 func (b *Buffer) readIntLE(call goja.FunctionCall) goja.Value {
-	bb := Bytes(b.r, call.This)
+	bb := b.bytes(call.This)
 	offset, byteLength := b.getVariableLengthReadArguments(call, bb)
 
 	var value int64
@@ -611,7 +630,7 @@ func (b *Buffer) readIntLE(call goja.FunctionCall) goja.Value {
 
 // readUInt8 reads an 8-bit unsigned integer from the buffer
 func (b *Buffer) readUInt8(call goja.FunctionCall) goja.Value {
-	bb := Bytes(b.r, call.This)
+	bb := b.bytes(call.This)
 	offset := b.getOffsetArgument(call, 0, bb, 1)
 	value := bb[offset]
 
@@ -620,7 +639,7 @@ func (b *Buffer) readUInt8(call goja.FunctionCall) goja.Value {
 
 // readUInt16BE reads a big-endian 16-bit unsigned integer from the buffer
 func (b *Buffer) readUInt16BE(call goja.FunctionCall) goja.Value {
-	bb := Bytes(b.r, call.This)
+	bb := b.bytes(call.This)
 	offset := b.getOffsetArgument(call, 0, bb, 2)
 	value := binary.BigEndian.Uint16(bb[offset : offset+2])
 
@@ -629,7 +648,7 @@ func (b *Buffer) readUInt16BE(call goja.FunctionCall) goja.Value {
 
 // readUInt16LE reads a little-endian 16-bit unsigned integer from the buffer
 func (b *Buffer) readUInt16LE(call goja.FunctionCall) goja.Value {
-	bb := Bytes(b.r, call.This)
+	bb := b.bytes(call.This)
 	offset := b.getOffsetArgument(call, 0, bb, 2)
 	value := binary.LittleEndian.Uint16(bb[offset : offset+2])
 
@@ -638,7 +657,7 @@ func (b *Buffer) readUInt16LE(call goja.FunctionCall) goja.Value {
 
 // readUInt32BE reads a big-endian 32-bit unsigned integer from the buffer
 func (b *Buffer) readUInt32BE(call goja.FunctionCall) goja.Value {
-	bb := Bytes(b.r, call.This)
+	bb := b.bytes(call.This)
 	offset := b.getOffsetArgument(call, 0, bb, 4)
 	value := binary.BigEndian.Uint32(bb[offset : offset+4])
 
@@ -647,7 +666,7 @@ func (b *Buffer) readUInt32BE(call goja.FunctionCall) goja.Value {
 
 // readUInt32LE reads a little-endian 32-bit unsigned integer from the buffer
 func (b *Buffer) readUInt32LE(call goja.FunctionCall) goja.Value {
-	bb := Bytes(b.r, call.This)
+	bb := b.bytes(call.This)
 	offset := b.getOffsetArgument(call, 0, bb, 4)
 	value := binary.LittleEndian.Uint32(bb[offset : offset+4])
 
@@ -656,7 +675,7 @@ func (b *Buffer) readUInt32LE(call goja.FunctionCall) goja.Value {
 
 // readUIntBE reads a big-endian unsigned integer of variable byte length
 func (b *Buffer) readUIntBE(call goja.FunctionCall) goja.Value {
-	bb := Bytes(b.r, call.This)
+	bb := b.bytes(call.This)
 	offset, byteLength := b.getVariableLengthReadArguments(call, bb)
 
 	var value uint64
@@ -669,7 +688,7 @@ func (b *Buffer) readUIntBE(call goja.FunctionCall) goja.Value {
 
 // readUIntLE reads a little-endian unsigned integer of variable byte length
 func (b *Buffer) readUIntLE(call goja.FunctionCall) goja.Value {
-	bb := Bytes(b.r, call.This)
+	bb := b.bytes(call.This)
 	offset, byteLength := b.getVariableLengthReadArguments(call, bb)
 
 	var value uint64
@@ -684,7 +703,7 @@ func (b *Buffer) readUIntLE(call goja.FunctionCall) goja.Value {
 // the number of bytes to write. If buffer did not contain enough space to fit the entire string, only part of string
 // will be written.
 func (b *Buffer) write(call goja.FunctionCall) goja.Value {
-	bb := Bytes(b.r, call.This)
+	bb := b.bytes(call.This)
 	str := goutil.RequiredStringArgument(b.r, call, "string", 0)
 	// note that we are passing in zero for numBytes, since the length parameter, which depends on offset,
 	// will dictate the number of bytes
@@ -717,7 +736,7 @@ func (b *Buffer) write(call goja.FunctionCall) goja.Value {
 
 // writeBigInt64BE writes a big-endian 64-bit signed integer to the buffer
 func (b *Buffer) writeBigInt64BE(call goja.FunctionCall) goja.Value {
-	bb := Bytes(b.r, call.This)
+	bb := b.bytes(call.This)
 	value := goutil.RequiredBigIntArgument(b.r, call, "value", 0)
 	offset := b.getOffsetArgument(call, 1, bb, 8)
 	if !value.IsInt64() {
@@ -732,7 +751,7 @@ func (b *Buffer) writeBigInt64BE(call goja.FunctionCall) goja.Value {
 
 // writeBigInt64LE writes a little-endian 64-bit signed integer to the buffer
 func (b *Buffer) writeBigInt64LE(call goja.FunctionCall) goja.Value {
-	bb := Bytes(b.r, call.This)
+	bb := b.bytes(call.This)
 	value := goutil.RequiredBigIntArgument(b.r, call, "value", 0)
 	offset := b.getOffsetArgument(call, 1, bb, 8)
 	if !value.IsInt64() {
@@ -747,7 +766,7 @@ func (b *Buffer) writeBigInt64LE(call goja.FunctionCall) goja.Value {
 
 // writeBigUInt64BE writes a big-endian 64-bit unsigned integer to the buffer
 func (b *Buffer) writeBigUInt64BE(call goja.FunctionCall) goja.Value {
-	bb := Bytes(b.r, call.This)
+	bb := b.bytes(call.This)
 	value := goutil.RequiredBigIntArgument(b.r, call, "value", 0)
 	offset := b.getOffsetArgument(call, 1, bb, 8)
 	if !value.IsUint64() {
@@ -762,7 +781,7 @@ func (b *Buffer) writeBigUInt64BE(call goja.FunctionCall) goja.Value {
 
 // writeBigUInt64LE writes a little-endian 64-bit unsigned integer to the buffer
 func (b *Buffer) writeBigUInt64LE(call goja.FunctionCall) goja.Value {
-	bb := Bytes(b.r, call.This)
+	bb := b.bytes(call.This)
 	value := goutil.RequiredBigIntArgument(b.r, call, "value", 0)
 	offset := b.getOffsetArgument(call, 1, bb, 8)
 	if !value.IsUint64() {
@@ -777,7 +796,7 @@ func (b *Buffer) writeBigUInt64LE(call goja.FunctionCall) goja.Value {
 
 // writeDoubleBE writes a big-endian 64-bit double to the buffer
 func (b *Buffer) writeDoubleBE(call goja.FunctionCall) goja.Value {
-	bb := Bytes(b.r, call.This)
+	bb := b.bytes(call.This)
 	value := goutil.RequiredFloatArgument(b.r, call, "value", 0)
 	offset := b.getOffsetArgument(call, 1, bb, 8)
 
@@ -789,7 +808,7 @@ func (b *Buffer) writeDoubleBE(call goja.FunctionCall) goja.Value {
 
 // writeDoubleLE writes a little-endian 64-bit double to the buffer
 func (b *Buffer) writeDoubleLE(call goja.FunctionCall) goja.Value {
-	bb := Bytes(b.r, call.This)
+	bb := b.bytes(call.This)
 	value := goutil.RequiredFloatArgument(b.r, call, "value", 0)
 	offset := b.getOffsetArgument(call, 1, bb, 8)
 
@@ -801,7 +820,7 @@ func (b *Buffer) writeDoubleLE(call goja.FunctionCall) goja.Value {
 
 // writeFloatBE writes a big-endian 32-bit float to the buffer
 func (b *Buffer) writeFloatBE(call goja.FunctionCall) goja.Value {
-	bb := Bytes(b.r, call.This)
+	bb := b.bytes(call.This)
 	value := goutil.RequiredFloatArgument(b.r, call, "value", 0)
 	offset := b.getOffsetArgument(call, 1, bb, 4)
 
@@ -815,7 +834,7 @@ func (b *Buffer) writeFloatBE(call goja.FunctionCall) goja.Value {
 
 // writeFloatLE writes a little-endian 32-bit floating-point number to the buffer
 func (b *Buffer) writeFloatLE(call goja.FunctionCall) goja.Value {
-	bb := Bytes(b.r, call.This)
+	bb := b.bytes(call.This)
 	value := goutil.RequiredFloatArgument(b.r, call, "value", 0)
 	offset := b.getOffsetArgument(call, 1, bb, 4)
 
@@ -829,7 +848,7 @@ func (b *Buffer) writeFloatLE(call goja.FunctionCall) goja.Value {
 
 // writeInt8 writes an 8-bit signed integer to the buffer
 func (b *Buffer) writeInt8(call goja.FunctionCall) goja.Value {
-	bb := Bytes(b.r, call.This)
+	bb := b.bytes(call.This)
 	value := goutil.RequiredIntegerArgument(b.r, call, "value", 0)
 	offset := b.getOffsetArgument(call, 1, bb, 1)
 
@@ -844,7 +863,7 @@ func (b *Buffer) writeInt8(call goja.FunctionCall) goja.Value {
 
 // writeInt16BE writes a big-endian 16-bit signed integer to the buffer
 func (b *Buffer) writeInt16BE(call goja.FunctionCall) goja.Value {
-	bb := Bytes(b.r, call.This)
+	bb := b.bytes(call.This)
 	value := goutil.RequiredIntegerArgument(b.r, call, "value", 0)
 	offset := b.getOffsetArgument(call, 1, bb, 2)
 
@@ -857,7 +876,7 @@ func (b *Buffer) writeInt16BE(call goja.FunctionCall) goja.Value {
 
 // writeInt16LE writes a little-endian 16-bit signed integer to the buffer
 func (b *Buffer) writeInt16LE(call goja.FunctionCall) goja.Value {
-	bb := Bytes(b.r, call.This)
+	bb := b.bytes(call.This)
 	value := goutil.RequiredIntegerArgument(b.r, call, "value", 0)
 	offset := b.getOffsetArgument(call, 1, bb, 2)
 
@@ -870,7 +889,7 @@ func (b *Buffer) writeInt16LE(call goja.FunctionCall) goja.Value {
 
 // writeInt32BE writes a big-endian 32-bit signed integer to the buffer
 func (b *Buffer) writeInt32BE(call goja.FunctionCall) goja.Value {
-	bb := Bytes(b.r, call.This)
+	bb := b.bytes(call.This)
 	value := goutil.RequiredIntegerArgument(b.r, call, "value", 0)
 	offset := b.getOffsetArgument(call, 1, bb, 4)
 
@@ -883,7 +902,7 @@ func (b *Buffer) writeInt32BE(call goja.FunctionCall) goja.Value {
 
 // writeInt32LE writes a little-endian 32-bit signed integer to the buffer
 func (b *Buffer) writeInt32LE(call goja.FunctionCall) goja.Value {
-	bb := Bytes(b.r, call.This)
+	bb := b.bytes(call.This)
 	value := goutil.RequiredIntegerArgument(b.r, call, "value", 0)
 	offset := b.getOffsetArgument(call, 1, bb, 4)
 
@@ -896,7 +915,7 @@ func (b *Buffer) writeInt32LE(call goja.FunctionCall) goja.Value {
 
 // writeIntBE writes a big-endian signed integer of variable byte length
 func (b *Buffer) writeIntBE(call goja.FunctionCall) goja.Value {
-	bb := Bytes(b.r, call.This)
+	bb := b.bytes(call.This)
 	value := goutil.RequiredIntegerArgument(b.r, call, "value", 0)
 	offset, byteLength := b.getVariableLengthWriteArguments(call, bb)
 
@@ -913,7 +932,7 @@ func (b *Buffer) writeIntBE(call goja.FunctionCall) goja.Value {
 
 // writeIntLE writes a little-endian signed integer of variable byte length
 func (b *Buffer) writeIntLE(call goja.FunctionCall) goja.Value {
-	bb := Bytes(b.r, call.This)
+	bb := b.bytes(call.This)
 	value := goutil.RequiredIntegerArgument(b.r, call, "value", 0)
 	offset, byteLength := b.getVariableLengthWriteArguments(call, bb)
 
@@ -930,7 +949,7 @@ func (b *Buffer) writeIntLE(call goja.FunctionCall) goja.Value {
 
 // writeUInt8 writes an 8-bit unsigned integer to the buffer
 func (b *Buffer) writeUInt8(call goja.FunctionCall) goja.Value {
-	bb := Bytes(b.r, call.This)
+	bb := b.bytes(call.This)
 	value := goutil.RequiredIntegerArgument(b.r, call, "value", 0)
 	offset := b.getOffsetArgument(call, 1, bb, 1)
 
@@ -945,7 +964,7 @@ func (b *Buffer) writeUInt8(call goja.FunctionCall) goja.Value {
 
 // writeUInt16BE writes a big-endian 16-bit unsigned integer to the buffer
 func (b *Buffer) writeUInt16BE(call goja.FunctionCall) goja.Value {
-	bb := Bytes(b.r, call.This)
+	bb := b.bytes(call.This)
 	value := goutil.RequiredIntegerArgument(b.r, call, "value", 0)
 	offset := b.getOffsetArgument(call, 1, bb, 2)
 
@@ -958,7 +977,7 @@ func (b *Buffer) writeUInt16BE(call goja.FunctionCall) goja.Value {
 
 // writeUInt16LE writes a little-endian 16-bit unsigned integer to the buffer
 func (b *Buffer) writeUInt16LE(call goja.FunctionCall) goja.Value {
-	bb := Bytes(b.r, call.This)
+	bb := b.bytes(call.This)
 	value := goutil.RequiredIntegerArgument(b.r, call, "value", 0)
 	offset := b.getOffsetArgument(call, 1, bb, 2)
 
@@ -971,7 +990,7 @@ func (b *Buffer) writeUInt16LE(call goja.FunctionCall) goja.Value {
 
 // writeUInt32BE writes a big-endian 32-bit unsigned integer to the buffer
 func (b *Buffer) writeUInt32BE(call goja.FunctionCall) goja.Value {
-	bb := Bytes(b.r, call.This)
+	bb := b.bytes(call.This)
 	value := goutil.RequiredIntegerArgument(b.r, call, "value", 0)
 	offset := b.getOffsetArgument(call, 1, bb, 4)
 
@@ -984,7 +1003,7 @@ func (b *Buffer) writeUInt32BE(call goja.FunctionCall) goja.Value {
 
 // writeUInt32LE writes a little-endian 32-bit unsigned integer to the buffer
 func (b *Buffer) writeUInt32LE(call goja.FunctionCall) goja.Value {
-	bb := Bytes(b.r, call.This)
+	bb := b.bytes(call.This)
 	value := goutil.RequiredIntegerArgument(b.r, call, "value", 0)
 	offset := b.getOffsetArgument(call, 1, bb, 4)
 
@@ -997,7 +1016,7 @@ func (b *Buffer) writeUInt32LE(call goja.FunctionCall) goja.Value {
 
 // writeUIntBE writes a big-endian unsigned integer of variable byte length
 func (b *Buffer) writeUIntBE(call goja.FunctionCall) goja.Value {
-	bb := Bytes(b.r, call.This)
+	bb := b.bytes(call.This)
 	value := goutil.RequiredIntegerArgument(b.r, call, "value", 0)
 	offset, byteLength := b.getVariableLengthWriteArguments(call, bb)
 
@@ -1014,7 +1033,7 @@ func (b *Buffer) writeUIntBE(call goja.FunctionCall) goja.Value {
 
 // writeUIntLE writes a little-endian unsigned integer of variable byte length
 func (b *Buffer) writeUIntLE(call goja.FunctionCall) goja.Value {
-	bb := Bytes(b.r, call.This)
+	bb := b.bytes(call.This)
 	value := goutil.RequiredIntegerArgument(b.r, call, "value", 0)
 	offset, byteLength := b.getVariableLengthWriteArguments(call, bb)
 
